@@ -24,14 +24,22 @@ func init() {
 			New: "	if old, ok := e.rows[tr]; !ok {\n		c.size += 1 + len(rows)\n	} else {\n		c.size += len(rows) - len(old.rows)\n	}"})
 	Extend("C25", runC25Extra5,
 		Mutant{Name: "seed-C25d-bucket-skipped-when-either-end-outside", File: "internal/api/table.go", Rule: "C25-R8",
-			Old: "		if len(rows) > 0 && !inRange(rows[0], from, to, fromEnd) &&\n			!inRange(rows[len(rows)-1], from, to, fromEnd) {",
-			New: "		if len(rows) > 0 && !(inRange(rows[0], from, to, fromEnd) &&\n			inRange(rows[len(rows)-1], from, to, fromEnd)) {"})
+			Old: "side != 0 && side == rowSide(rows[len(rows)-1], from, to, fromEnd) {", New: "side != 0 || rowSide(rows[len(rows)-1], from, to, fromEnd) != 0 {"},
+		Mutant{Name: "revert-F25-has-more-before-window-test", File: "internal/api/table.go", Rule: "C25-R9",
+			Old: "			if !inRange(row, from, to, fromEnd) {\n				continue\n			}\n			if len(limitedRows) == limit {\n				return limitedRows, true // a row of the window lies beyond the limit\n			}\n",
+			New: "			if len(limitedRows) == limit {\n				return limitedRows, true\n			}\n			if !inRange(row, from, to, fromEnd) {\n				continue\n			}\n"},
+		Mutant{Name: "revert-F25-zero-limit-has-more-for-any-bucket", File: "internal/api/table.go", Rule: "C25-R9",
+			Old: "	if limit <= 0 {\n		for _, rows := range rowsByTime {", New: "	if limit <= 0 {\n		if len(rowsByTime) > 0 {\n			return nil, true\n		}\n		for _, rows := range rowsByTime {"},
+		Mutant{Name: "revert-F24-bucket-skipped-when-both-ends-outside-on-any-side", File: "internal/api/table.go", Rule: "C25-R8",
+			Old: "side != 0 && side == rowSide(rows[len(rows)-1], from, to, fromEnd) {", New: "side != 0 && rowSide(rows[len(rows)-1], from, to, fromEnd) != 0 {"})
 	Extend("C27", runC27Extra5,
 		Mutant{Name: "seed-C27c-window-step-read-at-left-edge", File: "internal/promql/functions.go", Rule: "C27-R8",
 			Old: "		wnd.s = wnd.t[r] - wnd.t[r-1]", New: "		wnd.s = wnd.t[l] - wnd.t[l-1]"},
 		Mutant{Name: "seed-C27d-topk-ranks-empty-series", File: "internal/promql/functions.go", Rule: "C27-R7", Occurrence: 0,
 			Old: "	ev.removeEmptySeries(res)\n	type (\n		sortedSeriesGroup struct {", New: "	type (\n		sortedSeriesGroup struct {"})
 	Extend("C31", runC31Extra5,
+		Mutant{Name: "revert-F23-write-deadline-never-armed", File: "internal/balancer/egress.go", Rule: "C31-R8",
+			Old: "		if writeDeadline.IsZero() || s.cfg.WriteTimeout-time.Until(writeDeadline) > writeTimeoutAccuracy {", New: "		if s.cfg.WriteTimeout-time.Until(writeDeadline) > writeTimeoutAccuracy {"},
 		Mutant{Name: "seed-C31c-drops-accounted-on-active-sender", File: "internal/balancer/egress.go", Rule: "C31-R7",
 			Old: "	p.primary.wouldBlockBytes.Add(int64(len(pkt)))", New: "	(*p.primPtr).wouldBlockBytes.Add(int64(len(pkt)))"},
 		Mutant{Name: "seed-C31d-resend-count-from-unadvanced-copy", File: "internal/balancer/egress.go", Rule: "C31-R6",
@@ -136,8 +144,8 @@ func runC24Extra5(c *core.Check) {
 
 // C25-R8: a time bucket is skipped only when both its first and last row are outside the window.
 func runC25Extra5(c *core.Check) {
-	c.Decides += " R8 limitQueries skips a whole time bucket only under !inRange(first row) && !inRange(last row) (a bucket with one end inside the window is scanned row by row)."
-	c.Rule("C25-R8", "K1 guard dominance (edge)", 1, "every back edge of the bucket loop of limitQueries that bypasses the row loop is taken under !inRange(rows[0]) and !inRange(rows[len-1])")
+	c.Decides += " R8 limitQueries skips a whole time bucket only when its first row is outside the window and its last row is outside on the same side (a bucket with one end inside the window, or with the window inside it, is scanned row by row)."
+	c.Rule("C25-R8", "K1 guard dominance (edge)", 1, "every back edge of the bucket loop of limitQueries that bypasses the row loop is taken under rowSide(rows[0]) != 0 and rowSide(rows[0]) == rowSide(rows[len-1])")
 	fn := need(c, "C25-R8", "internal/api.limitQueries")
 	if fn == nil {
 		return
@@ -174,23 +182,43 @@ func runC25Extra5(c *core.Check) {
 		if i, ok := l.Instrs[len(l.Instrs)-1].(*ssa.If); ok {
 			lits = append(lits, core.NormLit(i.Cond, l.Succs[0] == header))
 		}
-		first, last := false, false
+		// the first row is outside the window (rowSide(first) != 0) and the last row is on the same side
+		first, same := false, false
 		for _, x := range lits {
-			if x.Pol || !strings.HasPrefix(x.Text, "internal/api.inRange(") {
+			if x.Op != token.EQL || x.X == nil {
 				continue
 			}
-			if strings.Contains(x.Text, "][0], ") {
+			xs, ys := core.Expr(x.X), core.Expr(x.Y)
+			isSide := func(s, idx string) bool { return strings.HasPrefix(s, "internal/api.rowSide(") && strings.Contains(s, idx) }
+			if !x.Pol && isSide(xs, "][0], ") && ys == "0" {
 				first = true
 			}
-			if strings.Contains(x.Text, "][(builtin len(") {
-				last = true
+			if x.Pol && ((isSide(xs, "][0], ") && isSide(ys, "][(builtin len(")) || (isSide(ys, "][0], ") && isSide(xs, "][(builtin len("))) {
+				same = true
 			}
 		}
-		c.Require(first && last, "C25-R8", fmt.Sprintf("internal/api.limitQueries/bucket-skip#%d", n), l.Instrs[0].Pos(), "bucket skipped only when both ends are outside",
-			fmt.Sprintf("a time bucket is skipped without both !inRange(first) and !inRange(last) being established (first=%v last=%v): rows of a timestamp that a page boundary cuts through are dropped, paging loses rows", first, last))
+		c.Require(first && same, "C25-R8", fmt.Sprintf("internal/api.limitQueries/bucket-skip#%d", n), l.Instrs[0].Pos(), "bucket skipped only when it lies wholly on one side of the window",
+			fmt.Sprintf("a time bucket is skipped without rowSide(first) != 0 (%v) and rowSide(first) == rowSide(last) (%v) being established: rows of a timestamp that a page boundary cuts through (or that contains the whole window) are dropped, paging loses rows", first, same))
 	}
 	if n == 0 {
 		c.Undecided("C25-R8", "internal/api.limitQueries/bucket-skip", fn.Pos(), "no bucket-skip edge found")
+	}
+	// R9 (F25): has-more is reported only on account of a row inside the window.
+	c.Decides += " R9 limitQueries reports has-more only at a row for which inRange holds (rows outside the window never set the flag, also when the limit is zero)."
+	c.Rule("C25-R9", "K1 guard dominance", 2, "every return of limitQueries whose has-more result is not the constant false is dominated by inRange(row) == true")
+	m := 0
+	for _, r := range core.Returns(fn) {
+		vals := core.ReturnedValues(r)
+		if len(vals) != 2 || core.ConstBool(vals[1], false) {
+			continue
+		}
+		m++
+		okH := core.ConstBool(vals[1], true) && core.Holds(r.Block(), core.T("internal/api.inRange(*)"))
+		c.Require(okH, "C25-R9", fmt.Sprintf("internal/api.limitQueries/has-more#%d", m), r.Pos(), "has-more only for a row of the window",
+			"has-more is returned as "+core.Expr(vals[1])+" without inRange(row) being established for some row: when the limit is reached (or is zero) and only rows outside the requested window remain, the client is told that more rows exist")
+	}
+	if m == 0 {
+		c.Undecided("C25-R9", "internal/api.limitQueries/has-more", fn.Pos(), "no return with a has-more result found")
 	}
 }
 
@@ -260,6 +288,7 @@ func runC27Extra5(c *core.Check) {
 
 // C31-R6/R7.
 func runC31Extra5(c *core.Check) {
+	defer runC31Deadline(c)
 	c.Decides += " R6 the sender's pop callback derives the number of packets to re-send from the very net.Buffers value that WriteTo advanced; R7 packets dropped by writeLocked are accounted on the pool's fixed primary sender (the one that always has an upstream address and therefore reports them), not on whichever sender is currently active."
 	c.Rule("C31-R6", "K7 provenance (same cell)", 1, "in every function of package balancer calling net.Buffers.WriteTo on cell X, the returned count derives from len(*X)")
 	n := 0
@@ -305,6 +334,76 @@ func runC31Extra5(c *core.Check) {
 			c.Undecided("C31-R7", "internal/balancer.(*tcpPool).writeLocked/wouldBlockBytes", fn.Pos(), "no accounting of dropped bytes found")
 		}
 	}
+}
+
+// mayBeZeroTime reports whether v (through phis) can be the zero value constant of a struct type.
+func mayBeZeroTime(v ssa.Value, seen map[ssa.Value]bool) bool {
+	if seen[v] {
+		return false
+	}
+	seen[v] = true
+	switch x := v.(type) {
+	case *ssa.Const:
+		_, isStruct := x.Type().Underlying().(*types.Struct)
+		return isStruct && x.Value == nil
+	case *ssa.Phi:
+		for _, e := range x.Edges {
+			if mayBeZeroTime(e, seen) {
+				return true
+			}
+		}
+	}
+	return false
+}
+
+// C31-R8 (F23): no arithmetic on the saturated distance to a zero time.
+func runC31Deadline(c *core.Check) {
+	c.Decides += " R8 in package balancer the duration to/from a time value that can still be the zero Time (time.Until / Time.Sub saturate at +-292 years) is never used in arithmetic unless IsZero() of that value was excluded: otherwise `timeout - time.Until(zero)` overflows, the refresh test is false for ever and the connection gets no write deadline (a stalled upstream blocks the sender without bound)."
+	c.Rule("C31-R8", "K13 saturating arithmetic + K1", 1, "every time.Until(x)/x.Sub(y) in package balancer whose operand may be the zero Time and whose result feeds + or - is dominated by !x.IsZero()")
+	n := 0
+	for _, fn := range c.Prog.FuncsIn("internal/balancer") {
+		for _, s := range core.CallsTo(fn, "time.Until", "time.(Time).Sub", "time.Since") {
+			arg := s.Arg(0)
+			if !mayBeZeroTime(arg, map[ssa.Value]bool{}) {
+				continue
+			}
+			arith := false
+			if v := s.Value(); v != nil {
+				// time.Until(zero) saturates at the minimum duration: overflow when it is subtracted;
+				// time.Since(zero) saturates at the maximum: overflow when something is added to it;
+				// for Time.Sub either operand can be the zero time.
+				callee := core.CalleeName(s.Common())
+				for _, r := range core.Referrers(v) {
+					b, ok := r.(*ssa.BinOp)
+					if !ok {
+						continue
+					}
+					switch {
+					case callee == "time.Until" && b.Op == token.SUB && b.Y == v,
+						callee == "time.Since" && b.Op == token.ADD,
+						callee == "time.(Time).Sub" && (b.Op == token.SUB || b.Op == token.ADD):
+						arith = true
+					}
+				}
+			}
+			if !arith {
+				continue
+			}
+			n++
+			okG := false
+			for _, g := range core.Facts(s.Block()) {
+				if len(g.Alts) != 1 || g.Alts[0].Pol {
+					continue
+				}
+				if call, ok := g.Alts[0].Cond.(*ssa.Call); ok && core.CalleeName(&call.Call) == "time.(Time).IsZero" && call.Call.Args[0] == arg {
+					okG = true
+				}
+			}
+			c.Require(okG, "C31-R8", fmt.Sprintf("%s/%s#%d", core.FuncName(fn), shortCallee(s), n), s.Pos(), "zero time excluded before duration arithmetic",
+				"the duration "+core.CalleeName(s.Common())+"("+core.Expr(arg)+") is used in + / - although the time can still be the zero Time (the duration saturates at about -292 years and the arithmetic overflows): the deadline refresh test stays false and SetWriteDeadline is never called on a new connection")
+		}
+	}
+	c.Require(n > 0, "C31-R8", "internal/balancer/duration-arithmetic", 0, fmt.Sprintf("%d duration computations on possibly-zero times, all guarded", n), "no duration arithmetic on a possibly-zero time found (the write-deadline refresh of sendLoop was expected)")
 }
 
 func derivesFromLenOfCell(v, cell ssa.Value, seen map[ssa.Value]bool) bool {
